@@ -43,7 +43,7 @@ Proof. unfold dyadic. split; vm_compute; lra. Qed.
 Example ex_doc_scale_hz :
   map (fun o => nth 5 o 0%Z)
     (tl (run_case (ZCase 0 1 1 [[0%Z]; [4607182418800017408%Z]; [0%Z]; [13830554455654793216%Z]]
-                    (CScale 4602678819172646912%Z) [ZNext; ZNext; ZNext; ZNext; ZNext; ZNext; ZNext; ZNext])))
+                    (CScale 4602678819172646912%Z) [ZNext; ZNext; ZNext; ZNext; ZNext; ZNext; ZNext; ZNext] 0)))
   = [0; 4602678819172646912; 4607182418800017408; 4602678819172646912; 0;
      13826050856027422720; 13830554455654793216; 13826050856027422720]%Z.
 Proof. vm_compute. reflexivity. Qed.
